@@ -258,7 +258,30 @@ USER_FNS = {
     '$eq_type': lambda c, args: all(x is not None and len(bytes(x)) == len(bytes(c)) for x in args),
     '$is_a_or_b': lambda c, args: bytes(c) in (lit('a'), lit('b')),
     '$not': lambda c, args: all(x is None or bytes(x) != bytes(c) for x in args),
+    # order-sensitive: a user function receives its arguments in the order they are written in the schema
+    '$first': lambda c, args: len(args) > 0 and args[0] is not None and bytes(args[0]) == bytes(c),
 }
+# independent transcription of the library's built-in functions (what a Checker uses when the application hands it the
+# library's DEFAULT_USER_FNS): $eq - the component equals every argument; $eq_type - it has the TLV type of every argument
+DEFAULT_REF_FNS = {
+    '$eq': lambda c, args: all(x is not None and bytes(x) == bytes(c) for x in args),
+    '$eq_type': lambda c, args: all(x is not None and rc_type(x) == rc_type(c) for x in args),
+}
+
+
+def rc_type(comp):
+    from . import refcodec as rc
+    return rc.comp_parts(bytes(comp))[0]
+
+
+def fns_for(schema):
+    """-> (functions handed to the library's Checker, functions of the reference interpreter)"""
+    if schema.get('default_fns'):
+        from ndn.app_support.light_versec.checker import DEFAULT_USER_FNS
+        return DEFAULT_USER_FNS, DEFAULT_REF_FNS
+    return USER_FNS, USER_FNS
+
+
 PAT_NAMES = ['x', 'y', 'z']
 TEMP_NAMES = ['_', '_t']
 
@@ -575,9 +598,32 @@ def template_schemas(rng, with_signers):
                               R('#pkt', [L('L0'), P(p1)], None, [k1])]})
         out.append({'rules': [R('#seg', [P('_v'), L(a)], [[('_v', [L(b), P(p1)])]]), R(k1, [L('L1'), P(p1), ('ref', '#seg'), ('ref', '#seg'), ('ref', '#seg')]),
                               R('#pkt', [L('L0'), ('ref', '#seg'), P(p1), ('ref', '#seg')], None, [k1])]})
+        # the key-name match backs out of a dead-end branch in which it had re-used a pattern bound by the packet name; the sibling
+        # branch uses that pattern again further down
+        out.append({'rules': [R('#pkt', [L('L0'), P(p1)], None, [k1, k2]), R(k1, [L('L1'), P(p1), L(a), L(b)]),
+                              R(k2, [L('L1'), P(p2), L(a), L(c), P(p1)])]})
+        out.append({'rules': [R('#pkt', [L('L0'), P(p1), P(p3)], None, [k1, k2]), R(k1, [L('L1'), P(p1), P(p3), L(b)]),
+                              R(k2, [L('L1'), P(p2), P('_'), L(c), P(p3), P(p1)])]})
         # the shared pattern is the highest-numbered named pattern; temporaries next to it
         out.append({'rules': [R('#pkt', [L('L0'), P(p1), P(p2), P('_')], None, [k1]), R(k1, [L('L1'), P(p1), P(p2)], None, [k2]),
                               R(k2, [L('L2'), P('_'), P(p2)])]})
+    # schemas that use the library's built-in functions only, checked with the library's DEFAULT_USER_FNS: one and two arguments,
+    # patterns and literals, typed literals for $eq_type
+    if not with_signers:
+        out.append({'default_fns': True, 'rules': [
+            R('#d1', [L(a), P(p1), P(p2), P(p3)], [[(p3, [('fn', '$eq', [P(p1), P(p2)])])]]),
+            R('#d2', [L(b), P(p1), P(p2)], [[(p2, [('fn', '$eq', [P(p1)]), ('fn', '$eq', [L(c), L(c)])])]]),
+            R('#d3', [L(c), P(p1), P(p2)], [[(p2, [('fn', '$eq_type', [P(p1)])]), (p1, [('fn', '$eq', [L(a), L(b)]), L(c)])]])]})
+    else:
+        out.append({'default_fns': True, 'rules': [
+            R('#pkt', [L('L0'), P(p1), P(p2), P('_')], None, ['#k1']),
+            R('#k1', [L('L1'), P(p3), L('KEY'), P('_')], [[(p3, [('fn', '$eq', [P(p1), P(p2)])])]], ['#k2']),
+            R('#k2', [L('L2'), P(p3)], [[(p3, [('fn', '$eq', [P(p1)]), ('fn', '$eq_type', [L(a), P(p2)])])]])]})
+    if not with_signers:
+        # the same call with its arguments written in either order (pattern first / literal first)
+        out.append({'rules': [R('#o1', [L(a), P(p1), P(p2)], [[(p2, [('fn', '$first', [P(p1), L(b)])])]]),
+                              R('#o2', [L(a), P(p1), P(p2), L(c)], [[(p2, [('fn', '$first', [L(b), P(p1)])])]]),
+                              R('#o3', [L(b), P(p1), P(p2), P(p3)], [[(p3, [('fn', '$first', [P(p2), L(a), P(p1)])])]])]})
     if not with_signers:
         # alternatives of ONE rule that bind the same pattern names to different components of one name
         out.append({'rules': [R('#pair', [P(p1), P('_')]), R('#pair', [P('_'), P(p1)]), R('#trio', [L(a), P(p1), P(p2), P('_')]),
